@@ -566,7 +566,23 @@ func (ex *Exec) modelInputs(m Model) []ModelInput {
 		}
 		out = append(out, ModelInput{in.Name, in.W, v, in.Kind})
 	}
-	return out
+	// uninterpreted-function applications of harness stubs (verifUF): the
+	// native replay looks the values up by (name, args)
+	var ufs []ModelInput
+	for _, t := range ex.st.apps {
+		if len(t.args) != 2 || !strings.HasPrefix(t.name, "uf_") || strings.HasPrefix(t.name, "uf_xx") {
+			continue
+		}
+		val, ok := m[appKey(t)]
+		if !ok {
+			continue
+		}
+		a0, _ := ex.evalIn(t.args[0], m)
+		a1, _ := ex.evalIn(t.args[1], m)
+		ufs = append(ufs, ModelInput{fmt.Sprintf("%s|%d|%d", strings.TrimPrefix(t.name, "uf_"), a0, a1), 64, val, "uf"})
+	}
+	sort.Slice(ufs, func(i, j int) bool { return ufs[i].Name < ufs[j].Name })
+	return append(out, ufs...)
 }
 
 // obligation checks that c holds on every extension of the current path.
